@@ -386,8 +386,48 @@ def check_empty_box_tests(ctx, db):
     ctx.require('R-BOUND.empty min-vs-max comparisons', n, 2)
 
 
+def check_hull_scans(ctx, db):
+    """R-AGG: where gdstk::convex_hull falls back to its own scan of the input (collinear points), the scan looks at every input
+    point: a loop that reads elements of the input array through a cursor or an index covers the indices lo .. lo + trip - 1
+    (affine loop summary of the element address), and lo + trip must be points.count, with lo = 0 - or lo = 1 when the running
+    extremes start from element 0. File-local helpers called from convex_hull are part of it."""
+    from .. import loops as LP
+    from ..linear import lin_add
+    root = db.fn('gdstk::convex_hull')
+    n = 0
+    for f, _w in db.with_helpers([root]):
+        ctx.touch(f)
+        arrays = ['v%d:%s' % (p_['d'], p_['n']) for p_ in f.params if 'Array<gdstk::Vec2>' in (p_.get('t') or '').replace('Array<Vec2>', 'Array<gdstk::Vec2>') and ('const' in (p_.get('t') or '') or '&' not in (p_.get('t') or ''))]
+        if not arrays:
+            continue
+        for l in LP.loops_of(f):
+            L = LP.Loop(f, l)
+            body = l.child('body')
+            for ak in arrays:
+                base = ak + '.items'
+                offs = set()
+                for x in (body.walk() if body is not None else []):
+                    if (x.k == 'MemberExpr' and x.n in ('x', 'y')) or (x.k == 'UnaryOperator' and x.op == '*') or x.k == 'ArraySubscriptExpr' or (x.k == 'CXXOperatorCallExpr' and x.op == '[]'):
+                        ep = L.element_ptr(x) if x.k == 'MemberExpr' else L.addr(x)
+                        if ep and ep.get(base) == 1 and ep.get(LP.K) == 1 and set(ep) <= {base, LP.K, 1}:
+                            offs.add(ep.get(1, 0))
+                if not offs:
+                    continue
+                n += 1
+                t = L.trip()
+                lo = min(offs)
+                hi = lin_add(t, {1: max(offs)}) if t is not None else None
+                clean = lambda d_: {k_: v_ for k_, v_ in (d_ or {}).items() if v_ != 0}
+                seeded0 = any(v.k == 'VarDecl' and '*' in (v.t or '') and v.child('init') is not None and v.pos < l.pos and ' '.join(v.child('init').text().split()).replace('(', '').replace(')', '') in (ak.split(':', 1)[1] + '.items',) for v in f.walk())
+                ok = hi is not None and clean(hi) == {ak + '.count': 1} and (lo == 0 or (lo == 1 and seeded0))
+                ctx.check(ok, 'R-AGG', 'convex_hull/scan-visits-every-point@%s:%d' % (f.name, l.l), l.loc(), 'the scan of the input points covers elements %d .. points.count - 1%s' % (lo, ' (element 0 is the initial extreme)' if lo else ''),
+                          'the scan of the input points covers elements %d .. %s - 1, not all of 0 .. points.count - 1: some point is never looked at and can lie outside the hull that is returned' % (lo, hi if hi is not None else 'an undetermined bound'))
+    ctx.require('R-AGG convex_hull scans', n, 1)
+
+
 def run(ctx):
     db = ctx.db
+    ctx.attempt(check_hull_scans, ctx, db)
     ctx.attempt(check_empty_box_tests, ctx, db)
     ctx.attempt(check_aggregates, ctx, db)
     ctx.attempt(check_minmax, ctx, db)
